@@ -189,7 +189,9 @@ def run_case(case, workdir):
     rec = Rec()
     recipes = {}
     for nm, src in (("r1", RECIPE), ("r2", RECIPE2)):
-        recipes[nm] = os.path.join(workdir, nm + ".py")
+        # two different recipe files with the SAME base name (module caches keyed by name must not mix them up)
+        os.makedirs(os.path.join(workdir, "recipes_" + nm))
+        recipes[nm] = os.path.join(workdir, "recipes_" + nm, "recipe.py")
         with open(recipes[nm], "w") as f:
             f.write(src)
     root, sibling, from_chk = make_root(case, workdir)
